@@ -106,6 +106,7 @@ impl AtomicEpoch {
     /// Loads a value from the atomic epoch.
     #[inline]
     pub(crate) fn load(&self, ord: Ordering) -> Epoch {
+        vpoint!(Epoch, self as *const Self);
         Epoch {
             data: self.data.load(ord),
         }
@@ -114,6 +115,12 @@ impl AtomicEpoch {
     /// Stores a value into the atomic epoch.
     #[inline]
     pub(crate) fn store(&self, epoch: Epoch, ord: Ordering) {
+        vpoint!(Epoch, self as *const Self);
+        vevent!(EpochStore {
+            addr: self as *const Self as usize,
+            old: self.data.load(Ordering::Relaxed),
+            new: epoch.data
+        });
         self.data.store(epoch.data, ord);
     }
 
@@ -138,6 +145,15 @@ impl AtomicEpoch {
         success: Ordering,
         failure: Ordering,
     ) -> Result<Epoch, Epoch> {
+        vpoint!(Epoch, self as *const Self);
+        #[cfg(feature = "circ_verif")]
+        if self.data.load(Ordering::Relaxed) == current.data {
+            vevent!(EpochStore {
+                addr: self as *const Self as usize,
+                old: current.data,
+                new: new.data
+            });
+        }
         match self
             .data
             .compare_exchange(current.data, new.data, success, failure)
